@@ -103,9 +103,14 @@ CHECKS = {
                      'function with numeric scalar parameters (~75, enumerated at run time) x each numeric position x 8 spellings (int, float, Number, numeric text "n"/"n.0", Text, numpy.int64/float64, TRUE) '
                      'gives one result; arithmetic coercion identities for + - * unary minus and &; function-name dispatch for 7 spellings (case, _xlfn.), a user-registered function seen by a later evaluator.',
                 note=XH_NOTE + ' Function bodies cross the C boundary, so the spelled value is forked over 1..3; P4 dateutil stub for the non-numeric-text obligation; date-text parsing by dateutil and locale formats are outside.'),
+    'C11': dict(engine='XH', technique='symbolic execution (CrossHair+z3) of Reader.read_cells/read_defined_names + ModelCompiler.parse_archive/build_* on an in-memory openpyxl workbook of patch.Cell objects with symbolic payloads',
+                text='Bounded symbolic model checking of the adapter layer only: for a 3-sheet in-memory workbook (a sheet name needing quotes, constants, formulas with cached results, a defined name for a cell and '
+                     'for a range) and ALL payload values (ints; int/text/bool), every subset of ignored sheets: exactly the non-ignored cells, with constants, formula texts and cached results (readable '
+                     'before evaluation); evaluates like a model built directly from the same contents.',
+                note=XH_NOTE + ' NOT applicable (and not claimed): zip container, XML parsing, shared strings, shared-formula expansion, openpyxl.load_workbook - file I/O and third-party decoding through which no symbolic input survives.'),
 }
 NA = {
     'C12': 'persist/restore is ten lines around jsonpickle -> json (C encoder) -> gzip/file I/O; no repo-side kernel a solver can quantify over (symbolic values are realised or pickled as proxy objects at the codec boundary)',
 }
-for _p in ['C11', ]:
+for _p in []:
     NA.setdefault(_p, 'check not built yet in this revision (planned: see DESIGN.md §4)')
